@@ -195,7 +195,7 @@ def run(ctx):
         raise AnalysisError("get_func_source: trimming regex not found", "get_func_source")
     for p in pats:
         rx = re.compile(p)
-        heads = {"def f(x):": True, "    def f(x):": True, "async def f(x):": True, "    async def f(x):": True, "@task(cache=False)": False, "    return default": False}
+        heads = {"def f(x):": True, "    def f(x):": True, "async def f(x):": True, "    async def f(x):": True, "\tdef f(x):": True, "\t\tasync def f(x):": True, "async  def f(x):": True, "@task(cache=False)": False, "    return default": False, "    undefined = 1": False}
         wrong = [h for h, want in heads.items() if bool(rx.match(h)) != want]
         r5.check(
             not wrong,
